@@ -90,8 +90,12 @@ def run_case(case, tier):
     res = {"fingerprint": K.fingerprint(case["text"], goals, case["params"], case["inits"]), "features": case.get("features", []),
            "events": {}, "violations": [], "comparisons": 0, "refusals": [], "extra": {}}
     try:
-        table = K.oracle_moments(prog, params, inits, goals, N)
-        typed_text = explicit_types_text(prog, case["fin"], params, inits) if case["fin"] else None
+        with K.soft_timeout(TIMEOUT[tier] * 0.3):
+            table = K.oracle_moments(prog, params, inits, goals, N)
+            typed_text = explicit_types_text(prog, case["fin"], params, inits) if case["fin"] else None
+    except K.SoftTimeout:
+        res.update(verdict="inconclusive", reason="oracle-cap", detail="reference engine time box")
+        return res
     except K.OracleSkip as e:
         res.update(verdict="inconclusive", reason=e.reason.split(":")[0], detail=e.reason)
         return res
@@ -111,12 +115,28 @@ def run_case(case, tier):
             numeric_cfgs.append(({}, {"force_cyclic_solver": True, "numeric_roots": nr, "numeric_croots": ncr, "numeric_eps": eps}, case["text"], "numeric"))
     succeeded = {i: 0 for i in range(len(goals))}
     outcomes = {i: [] for i in range(len(goals))}
-    for st, solver_kw, text, tag in configs + numeric_cfgs:
+    import time
+    lf = K.load_factor()
+    t_start = time.time()
+    budget = TIMEOUT[tier] * 0.85   # nominal seconds; settings that do not fit the per-case time box are skipped
+    # explicit-types and numeric configurations first in every other case, so that the time box does not always cut the same ones
+    allcfg = configs + numeric_cfgs
+    if int(case["id"].split("-")[-1] or 0) % 2:
+        allcfg = allcfg[8:] + allcfg[:8]
+    for st, solver_kw, text, tag in allcfg:
         label = tag + ":" + ",".join(f"{k}={v}" for k, v in sorted({**st, **solver_kw}.items()) if v not in (False,))
+        left = budget - (time.time() - t_start) / lf
+        if left < 2:
+            res["events"]["settings-skipped-time-box"] = res["events"].get("settings-skipped-time-box", 0) + 1
+            continue
         P.set_settings(**st)
         try:
             try:
-                program, rb = P.prepare(text)
+                with K.soft_timeout(left):
+                    program, rb = P.prepare(text)
+            except K.SoftTimeout:
+                res["events"]["settings-skipped-time-box"] = res["events"].get("settings-skipped-time-box", 0) + 1
+                continue
             except Exception as e:
                 res["refusals"].append(f"[{label}] " + P.refusal_key(e))
                 continue
@@ -125,9 +145,17 @@ def run_case(case, tier):
                 continue
             values.update(av)
             for gi, (g, ref) in enumerate(zip(goals, table)):
+                left = budget - (time.time() - t_start) / lf
+                if left < 1.5:
+                    res["events"]["settings-skipped-time-box"] = res["events"].get("settings-skipped-time-box", 0) + 1
+                    break
                 try:
-                    cf, is_exact, recs = P.closed_form(program, rb, g, **solver_kw)
+                    with K.soft_timeout(left):
+                        cf, is_exact, recs = P.closed_form(program, rb, g, **solver_kw)
                     res["events"]["RecurrenceSolver.get"] = res["events"].get("RecurrenceSolver.get", 0) + 1
+                except K.SoftTimeout:
+                    res["events"]["settings-skipped-time-box"] = res["events"].get("settings-skipped-time-box", 0) + 1
+                    break
                 except Exception as e:
                     res["refusals"].append(f"[{label}] " + P.refusal_key(e))
                     continue
